@@ -35,6 +35,44 @@ func descValue(v ssa.Value, depth int) string {
 	case *ssa.Global:
 		return "g:" + x.Name()
 	case *ssa.Alloc:
+		// a by-value parameter spilled to a cell is described as that parameter
+		var prm *ssa.Parameter
+		n := 0
+		for _, r := range *x.Referrers() {
+			if st, ok := r.(*ssa.Store); ok && st.Addr == ssa.Value(x) {
+				n++
+				if q, ok := st.Val.(*ssa.Parameter); ok {
+					prm = q
+				}
+			}
+		}
+		if n == 1 && prm != nil {
+			return "p" + paramIndex(prm)
+		}
+		// small local arrays (composite literals, varargs): describe the elements
+		if arr, ok := x.Type().(*types.Pointer).Elem().Underlying().(*types.Array); ok && arr.Len() <= 6 && depth < 3 {
+			elems := make([]string, arr.Len())
+			found := false
+			for _, r := range *x.Referrers() {
+				ia, ok := r.(*ssa.IndexAddr)
+				if !ok {
+					continue
+				}
+				k, ok := constInt(ia.Index)
+				if !ok || k < 0 || k >= arr.Len() {
+					continue
+				}
+				for _, rr := range *ia.Referrers() {
+					if st, ok := rr.(*ssa.Store); ok && st.Addr == ssa.Value(ia) {
+						elems[k] = descValue(st.Val, depth+1)
+						found = true
+					}
+				}
+			}
+			if found {
+				return "[" + strings.Join(elems, ",") + "]"
+			}
+		}
 		return "local:" + shortType(x.Type().(*types.Pointer).Elem())
 	case *ssa.Call:
 		if l := lenOf(x); l != nil {
@@ -212,7 +250,7 @@ func descCall(c *ssa.Call, depth int) string {
 // defined it as receiver of a Set* method (so that two checks on the same scratch variable,
 // loaded with different inputs, are different statements).
 func descAllocAt(a *ssa.Alloc, at ssa.Instruction, depth int) string {
-	base := "local:" + shortType(a.Type().(*types.Pointer).Elem())
+	base := descValue(a, depth)
 	var best *ssa.Call
 	for _, r := range *a.Referrers() {
 		call, ok := r.(*ssa.Call)
